@@ -3,6 +3,7 @@ package main
 // Loading, workers, the path work-queue and result collection.
 
 import (
+	"context"
 	"fmt"
 	"go/types"
 	"os"
@@ -237,7 +238,11 @@ func (w *Worker) solver(kind string) *Solver {
 	s := w.solvers[kind]
 	if s == nil {
 		var err error
-		s, err = NewSolver(kind, w.cfg.TimeoutMs)
+		tmo := w.cfg.TimeoutMs
+		if kind == "z3-new" && tmo > 3000 {
+			tmo = 3000 // first tier: what it cannot do quickly goes to the portfolio
+		}
+		s, err = NewSolver(kind, tmo)
 		if err != nil {
 			panic(fmt.Sprintf("cannot start solver %s: %v", kind, err))
 		}
@@ -246,24 +251,56 @@ func (w *Worker) solver(kind string) *Solver {
 	return s
 }
 
-var solverOrder = []string{"z3-new", "cvc5-int", "z3"}
-var solverOrderHard = []string{"cvc5-int", "z3-new", "z3"}
-
+// solve decides a conjunction.  Easy queries go to the persistent incremental z3 (short
+// timeout); queries with wide multiplication/division, and whatever the incremental solver gives
+// up on, go to a portfolio of fresh one-shot solvers run in parallel (integer encoding in z3,
+// cvc5's bv-as-int, plain bit-vectors); the first definite answer wins.
 func (w *Worker) solve(as []*Term, wantModel bool) (SatResult, map[string]uint64) {
-	order := solverOrder
+	hard := false
 	for _, a := range as {
 		if a.Hard {
-			order = solverOrderHard
+			hard = true
 			break
 		}
 	}
-	for _, k := range order {
-		r, m := w.solver(k).Check(as, wantModel, nil)
+	if !hard {
+		r, m := w.solver("z3-new").Check(as, wantModel, nil)
 		if r != Unknown {
 			return r, m
 		}
 	}
-	return Unknown, nil
+	return w.portfolio(as, wantModel, hard)
+}
+
+type portfolioResult struct {
+	kind string
+	r    SatResult
+	m    map[string]uint64
+}
+
+func (w *Worker) portfolio(as []*Term, wantModel bool, hard bool) (SatResult, map[string]uint64) {
+	kinds := []string{"z3-int", "cvc5-int", "z3-bv1"}
+	ctx, cancel := context.WithCancel(context.Background())
+	ch := make(chan portfolioResult, len(kinds))
+	for _, k := range kinds {
+		s := w.solver(k)
+		s.ctx = ctx
+		go func(k string, s *Solver) {
+			r, m := s.Check(as, wantModel, nil)
+			ch <- portfolioResult{k, r, m}
+		}(k, s)
+	}
+	var res portfolioResult
+	res.r = Unknown
+	for range kinds {
+		x := <-ch
+		if x.r != Unknown && res.r == Unknown {
+			res = x
+			cancel() // stop the losers; their (killed) runs report unknown and are discarded
+		}
+	}
+	cancel()
+	return res.r, res.m
 }
 
 func (w *Worker) noteInconclusive(msg string) {
